@@ -171,6 +171,12 @@ def gen_program(rng: random.Random) -> dict:
                 ref = RefTable([(bytes.fromhex(cc), t) for cc, t in tables[rng.choice(list(tables))]])
                 s = gen_string(rng, ref).replace("'", "")
                 out.append(["text", counter[0], s])
+                if rng.random() < 0.35:
+                    # directly followed by further .text directives: each string is encoded on its own
+                    for _ in range(rng.randint(1, 3)):
+                        parts = [t for t in ref.enc if t and "'" not in t]
+                        s2 = "".join(rng.choice(parts) for _ in range(rng.randint(1, 4))) if parts else "a"
+                        out.append(["rawtext", 0, s2])
             elif c < 0.9 and depth < 3:
                 kind = rng.choice(["block", "block", "scope", "macro", "for", "if"])
                 counter[0] += 1
@@ -198,6 +204,8 @@ def render_program(prog: dict) -> str:
                 lines.append(f"{pad}.text '{it[2]}'")
                 lines.append(f"{pad}e{n}:")
                 lines.append(f"{pad}.dl s{n}, e{n}")
+            elif it[0] == "rawtext":
+                lines.append(f"{pad}.text '{it[2]}'")
             elif it[0] == "block":
                 lines.append(pad + "{")
                 walk(it[2], ind + 1)
@@ -241,6 +249,9 @@ def expected_bytes(prog: dict) -> bytes:
                 out.extend(refs[name].to_bytes(it[2]))
                 end = base + len(out)
                 out.extend(start.to_bytes(3, "little") + end.to_bytes(3, "little"))
+            elif it[0] == "rawtext":
+                name = next(t for t in reversed(table_stack) if t is not None)
+                out.extend(refs[name].to_bytes(it[2]))
             elif it[0] in ("block", "scope"):
                 walk(it[2], table_stack + [None])
             elif it[0] == "if":
